@@ -47,6 +47,7 @@ type Result struct {
 	Labels       map[string]*exec.LabelStat `json:"labels"`
 	Reach        map[string]int             `json:"reach"`
 	Cexs         []*exec.Cex                `json:"cexs"`
+	Witnesses    []*exec.Cex                `json:"witnesses"`
 	Unsupported  map[string]int             `json:"unsupported"`
 	BoundHits    map[string]int             `json:"bound_hits"`
 	Funcs        []string                   `json:"functions_encoded"`
@@ -76,6 +77,7 @@ func main() {
 	smtlog := flag.String("smtlog", "", "")
 	params := flag.String("params", "", "k=v,k=v")
 	shard := flag.String("shard", "", "i/n")
+	witnesses := flag.Int("witnesses", 0, "number of ok-path input models to emit for native cross-validation")
 	ov := overlayFlag{}
 	flag.Var(ov, "overlay", "virtual=real (repeatable)")
 	flag.Parse()
@@ -162,6 +164,7 @@ func main() {
 	if *shard != "" {
 		fmt.Sscanf(*shard, "%d/%d", &e.ShardI, &e.ShardN)
 	}
+	e.WantWitnesses = *witnesses
 	e.Init(mainPkg)
 	e.Explore(fn, exec.RunConfig{MaxSteps: *maxSteps, Unwind: *unwind, MaxPaths: *maxPaths, Timeout: *tlimit})
 	solver.Close()
@@ -176,6 +179,7 @@ func main() {
 	res.Labels = e.Labels
 	res.Reach = e.Reach
 	res.Cexs = e.Cexs
+	res.Witnesses = e.Witnesses
 	res.Unsupported = e.Unsupported
 	res.BoundHits = e.BoundHits
 	for f := range e.FuncsEncoded {
